@@ -61,6 +61,8 @@ type Program struct {
 
 	helperTab       *helperTable
 	tables          map[*ssa.Global]*constTable
+	poolGetAcc      map[*ssa.Function]poolAccessor
+	poolPutAcc      map[*ssa.Function]poolAccessor
 	fieldOwnerCache map[*types.Var]string // per program: *types.Var identities differ between loads
 }
 
